@@ -193,7 +193,9 @@ def run_op(r, opn, rhs_lit):
         # elementwise products are *defined* through root decompositions of both operands (Cholesky with the
         # documented jitter, or symeig): normwise factorization tolerance, not the exact-structure one
         S = torch.full_like(S, float(S.max())) * tol.root_slack(dtname, ref.shape[-1])
-    bound = tol.exact_bound(S, dtname, inner, depth, extra)
+        bound = tol.exact_bound(S, dtname, inner, depth, extra) + 16.0 * tol.JITTER_MAX[dtname] * (1.0 + float(mag.max())) * (1.0 + (float(L.value(rhs_lit).abs().max()) if rhs_lit else 0.0))
+    else:
+        bound = tol.exact_bound(S, dtname, inner, depth, extra)
     ratio, idx = tol.worst_excess(res, expect, bound) if res.numel() else (0.0, None)
     if ratio > 1.0:
         fail(
